@@ -1231,6 +1231,11 @@ class CBEval(AutoEvaluator):
             if b0 is not None and isinstance(b0.shape, tuple) and len(b0.shape) == 1:
                 self._store_value(pos[0], pos[1], pos[2], node)          # on a one-dimensional array np.put(A, i, v) is A[i] = v
                 return NONE
+        if name == "locate.flippv" and len(pos) == 2 and not kws and is_rat(pos[0]):
+            # the complement of pv in range(n) does not depend on the order of pv or on repeated entries
+            sc0 = split_call(pos[0])
+            if sc0 is not None and sc0[0] in ("np.sort", "np.unique", "sorted", "np.flip", "np.flipud") and len(sc0[1]) == 1 and not sc0[2] and is_rat(sc0[1][0]):
+                return self._dispatch(name, [sc0[1][0], pos[1]], {}, node)
         if name == "ytools.mkpattvec":
             # mkpattvec(start, stop, inc) is start[:, None] + arange(0, stop, inc): a constant offset of the start values is an offset of the
             # result, so mkpattvec([3, 4, 5], n, 6) and mkpattvec([0, 1, 2], n, 6) + 3 are one value
